@@ -198,6 +198,12 @@ func (s *SwapStateMachine) SendEvent(event EventType, eventCtx EventContext) (bo
 			s.mutex.Lock()
 			return res, err
 		}
+		// An event that the current state does not accept must not change
+		// the swap data (it would be persisted below even though the event is
+		// rejected).
+		if _, err := s.getNextState(event); err != nil {
+			return false, ErrEventRejected
+		}
 		err = eventCtx.ApplyToSwapData(s.Data)
 		if err != nil {
 			if event == Event_OnSwapOutStarted || event == Event_SwapInSender_OnSwapInRequested {
